@@ -259,7 +259,7 @@ def _fold_lookup(node):
             g = en.prog.callee_of(en._stack[-1], node)
         except Exception:
             g = None
-        if g is not None and en.prog.is_respelling(g):
+        if g is not None and en.prog.is_respelling(g, node.args[0]):
             return node.args[0]
     ctor = node.func if isinstance(node, ast.Call) else None
     if isinstance(ctor, ast.Name) and ctor.id.startswith('SYM_v') and \
